@@ -8,6 +8,7 @@ import (
 	"go/token"
 	"go/types"
 	"os"
+	"path/filepath"
 	"sort"
 	"strings"
 	"sync"
@@ -76,7 +77,19 @@ func Load(o LoadOpts) (*Prog, error) {
 		Env:   env,
 		Tests: false,
 	}
-	pkgs, err := packages.Load(cfg, "./...")
+	// "./..." does not descend into symlinked directories; a scratch copy may link a large
+	// untouched tree (data/) instead of copying it: name such roots explicitly
+	patterns := []string{"./..."}
+	if ents, err := os.ReadDir(o.Dir); err == nil {
+		for _, e := range ents {
+			if e.Type()&os.ModeSymlink != 0 {
+				if fi, err := os.Stat(filepath.Join(o.Dir, e.Name())); err == nil && fi.IsDir() {
+					patterns = append(patterns, "./"+e.Name()+"/...")
+				}
+			}
+		}
+	}
+	pkgs, err := packages.Load(cfg, patterns...)
 	if err != nil {
 		return nil, fmt.Errorf("load: %w", err)
 	}
